@@ -495,6 +495,18 @@ fn gen_utf8(r: &mut Rng, funcs: &[String]) -> String {
     }
 }
 
+/// Systematic block (no randomness): EVERY function name of the engine's table x six argument shapes over the columns of `mb`
+/// (all multi-byte words x n = 0..6 in one statement), so that a character-boundary slip in any one string function is hit on every run.
+fn sys_utf8_cases(funcs: &[String]) -> Vec<Value> {
+    let mut out = vec![];
+    for f in funcs {
+        for args in ["s", "s, n", "s, p", "s, n, n", "s, p, n", "s, n, p", "n, s", "s, 'é', p"] {
+            out.push(json!({"kind":"sql","setup":"std","stream":"utf8-sys","sql":format!("SELECT {}({}) FROM mb", f, args)}));
+        }
+    }
+    out
+}
+
 struct Tab { name: &'static str, cols: &'static [(&'static str, char)] }
 const STD_TABS: &[Tab] = &[
     Tab { name: "t1", cols: &[("a",'i'),("b",'i'),("c",'f'),("s",'s'),("d",'d'),("e",'b'),("i",'i')] },
@@ -1008,5 +1020,7 @@ pub fn main(o: &Opts) {
         Some("utf8") => json!({"kind":"sql","setup":"std","stream":"utf8","sql":gen_utf8(&mut r, &funcs)}),
         _ => gen_case(&mut r, n, &funcs),
     }).collect();
+    let mut cases = cases;
+    if only.is_none() && o.get("sys") != Some("0") { cases.extend(sys_utf8_cases(&funcs)); }
     run_all(cases, limit_ms, jobs);
 }
